@@ -34,7 +34,10 @@ def slices_travel(inp, out, pos_name):
 class C17(Prop):
     id = "C17"
     theorems = ["takeAxisPos_get", "takeAxisPos_labels", "takeAxisPos_other_axes", "sortAxis_sorted", "sortAxis_perm",
-                "compressAxis_labels", "fillna_spec", "setna_spec", "dropna_mask_spec"]
+                "compressAxis_labels", "fillna_spec", "setna_spec", "dropna_mask_spec", "takeAxisPos_selects", "sortAxis_spec", "argsortBy_isStableArgsort", "sortAxis_ok_iff", "sortAxis_of_sorted", "sortAxis_idempotent",
+                "compressAxis_spec", "keptPositions_spec", "compressAxis_ok_iff", "dropna_spec", "dropna_error", "dropna_rank1",
+                "dropna_no_nan", "takeAxis_position_spec", "takeAxis_label_spec", "takeAxis_label_ok", "fillna_no_nan", "fillna_idempotent",
+                "setna_isnan", "setna_fillna"]
     rule = ("arrays of rank 1-4 with unsorted int/float/str labels, every axis by name / position, NaN patterns none / "
             "some / whole slices / all; sort_axis (plain, key function, dict key), take_axis (labels / positions, repeats, "
             "mode raise / clip), compress_axis with every mask, dropna with minvalid from 0 to the slice size (default "
